@@ -217,8 +217,53 @@ class Tokens(SubCheck):
         return "def test_replay():\n    from svgelements import Path\n    print(list(Path(%r)))\n" % case["d"]
 
 
+class Collide(SubCheck):
+    """the same command sequences with operands that all coincide: every operand 0 (every absolute target is the origin,
+    every relative step is null: zero-length segments, reflections that fall on the node, closes of nothing, arcs
+    between identical points) or every operand 3 (absolute targets all equal, relative steps all equal)"""
+    name = "collide"
+
+    def __init__(self, svg, tier):
+        self.svg = svg
+        depth = 4 if tier == "thorough" else 3
+        self.space = Concat(*[Product("Mm", *([pc.LETTERS] * k)) for k in range(1, depth + 1)])
+        self.vals = ["0", "3", "-0"]
+        self.bounds = dict(depth=depth, operand_values=self.vals)
+
+    def size(self):
+        return len(self.space) * len(self.vals)
+
+    def case(self, i):
+        letters = self.space[i // len(self.vals)]
+        val = self.vals[i % len(self.vals)]
+        parts = []
+        for l in letters:
+            C = l.upper()
+            if C == "Z":
+                parts.append(l)
+            elif C == "A":
+                parts.append("%s5,8 30 0,1 %s,%s" % (l, val, val))
+            else:
+                parts.append(l + " ".join([val] * pc.NARGS[C]))
+        return {"d": " ".join(parts)}
+
+    def run(self, case):
+        out = Outcome()
+        d = case["d"]
+        ref, p = run_string(self.svg, d, out, dict(d=d))
+        if not ref.ok:
+            out.fail("HARNESS: generated string rejected by the reference: %r at %r" % (d, ref.error_pos), harness=True)
+            return out
+        out.nontrivial.append(d)
+        if p is not None:
+            out.outcome = tuple(type(s).__name__[0] for s in p)
+        return out
+
+    unit_test = CmdSeq.unit_test
+
+
 def build(tier, seed, svg):
-    return [CmdSeq(svg, tier, seed), Tokens(svg, tier)]
+    return [CmdSeq(svg, tier, seed), Collide(svg, tier), Tokens(svg, tier)]
 
 
 def m_smooth_other_degree(d):
